@@ -6,8 +6,17 @@ package main
 // One case = one multi-round, multi-trie history over ONE persistent store (the real PNodeDB over the fake
 // RocksDB), shaped like the production use of the pieces:
 //
-//	round <version>            drop every open trie; open the block trie (id 0) =
+//	round <version> [kind]     drop every open trie; open the block trie (id 0); kind level (default) =
 //	                           NewMerklePatriciaTrie(NewLevelNodeDB(NewMemoryNodeDB(), pndb, false), version, lastSavedRoot)
+//	                           kind mem: directly over a fresh MemoryNodeDB (empty root); kind pndb: directly over the
+//	                           PNodeDB at the base root (its writes and deletes hit the persistent store at once: all
+//	                           earlier saved rounds count as abandoned). The base root is the latest saved round with a
+//	                           version below <version>; saved rounds at versions >= <version> become superseded (a
+//	                           re-execution of a round at the same version = a competing block; the chain continues
+//	                           from the later one)
+//	ver 0 <n>                  SetVersion of the block trie (a trie carried over a version bump before its save)
+//	syncfrom <w> <k=hex,...>   build a donor trie at version w in a MemoryNodeDB and MergeDB it into the block trie
+//	                           (state sync: the donor's nodes keep their own origins; the block trie takes its root)
 //	child <id> <parent>        open a transaction trie over NewLevelNodeDB(NewMemoryNodeDB(), parent.GetNodeDB(), false)
 //	                           at the parent's current root and version (grandchildren allowed)
 //	ins <id> <path> <hexval>   Insert                         -> "ok <root> ev=<event stream>" | errkind
@@ -105,7 +114,9 @@ func fmtEvents(es []ccEvent) string {
 type trieH struct {
 	id, parent  int
 	mpt         *util.MerklePatriciaTrie
-	ldb         *util.LevelNodeDB
+	db          util.NodeDB
+	ldb         *util.LevelNodeDB // nil unless the trie is over a LevelNodeDB
+	kind        string            // level | mem | pndb
 	content     map[string][]byte // oracle: what this trie must contain
 	openContent map[string][]byte // parent's content when this trie was opened
 	parentMuts  int               // parent's mutation counter when this trie was opened
@@ -117,10 +128,11 @@ type trieH struct {
 }
 
 type savedRound struct {
-	version int64
-	root    util.Key
-	content map[string][]byte
-	dead    map[string]bool // as stored in the dead-node record of this version
+	version    int64
+	root       util.Key
+	content    map[string][]byte
+	dead       map[string]bool // as stored in the dead-node record of this version
+	superseded bool            // re-executed at the same version later, or abandoned: no longer retained
 }
 
 type storeRun struct {
@@ -192,11 +204,21 @@ func sortedKeys(m map[string]bool) []string {
 	return ks
 }
 
-func (s *storeRun) lastRoot() util.Key {
-	if len(s.saved) == 0 {
-		return nil
+// base returns the index of the saved round a block trie opened now continues from (-1: none)
+func (s *storeRun) base() int {
+	for i := len(s.saved) - 1; i >= 0; i-- {
+		if !s.saved[i].superseded {
+			return i
+		}
 	}
-	return s.saved[len(s.saved)-1].root
+	return -1
+}
+
+func (s *storeRun) lastRoot() util.Key {
+	if b := s.base(); b >= 0 {
+		return s.saved[b].root
+	}
+	return nil
 }
 
 // ---- observations -----------------------------------------------------------------------------------------
@@ -218,7 +240,7 @@ func memKeys(db util.NodeDB) (keys []string, bad []string) {
 // probe so that they do not warm t's node cache (a warmed cache hands out decoded copies and thereby hides
 // aliasing between the node objects held by the stores and the change collectors).
 func probe(t *trieH) *util.MerklePatriciaTrie {
-	return newMPT(t.ldb, int64(t.mpt.GetVersion()), t.mpt.GetRoot())
+	return newMPT(t.db, int64(t.mpt.GetVersion()), t.mpt.GetRoot())
 }
 
 // observe returns the canonical full observation of a trie (also the `observe` output line).
@@ -244,10 +266,15 @@ func (s *storeRun) observe(t *trieH) string {
 			dl = append(dl, d.GetHash())
 		}
 		sort.Strings(dl)
-		cur, bad := memKeys(t.ldb.GetCurrent())
-		gone := make([]string, 0, len(t.ldb.DeletedNodes))
-		for k := range t.ldb.DeletedNodes {
-			gone = append(gone, hx([]byte(k)))
+		var cur, bad, gone []string
+		switch t.kind {
+		case "level":
+			cur, bad = memKeys(t.ldb.GetCurrent())
+			for k := range t.ldb.DeletedNodes {
+				gone = append(gone, hx([]byte(k)))
+			}
+		case "mem":
+			cur, bad = memKeys(t.db)
 		}
 		sort.Strings(gone)
 		o := "ok root=" + rootStr(root) + " iter=" + it + " changes=" + strings.Join(ch, ",") + " deletes=" + strings.Join(dl, ",") +
@@ -411,7 +438,7 @@ func walkRoot(dir string, version int64, root util.Key) (ps []pair, keys map[str
 func (s *storeRun) checkRetained(dir string, upto int, prop, what string) {
 	for i := 0; i < upto && i < len(s.saved); i++ {
 		sr := s.saved[i]
-		if sr.version < s.pruned {
+		if sr.version < s.pruned || sr.superseded {
 			continue
 		}
 		ps, keys, missing, err := walkRoot(dir, sr.version, sr.root)
@@ -423,6 +450,9 @@ func (s *storeRun) checkRetained(dir string, upto int, prop, what string) {
 			s.fail(prop, "%s: saved root #%d (version %d) reads %q, want %q", what, i, sr.version, got, want)
 		}
 		for j := 0; j <= i; j++ {
+			if s.saved[j].superseded {
+				continue
+			}
 			for k := range s.saved[j].dead {
 				if keys[k] {
 					s.fail("C05", "%s: node %s recorded dead in round #%d (version %d) is reachable from the root of round #%d (version %d)", what, k, j, s.saved[j].version, i, sr.version)
@@ -554,21 +584,32 @@ func adversarialOrder(changes []*util.NodeChange) bool {
 
 // ---- operations -------------------------------------------------------------------------------------------
 
-func (s *storeRun) openBlock(version int64) *trieH {
-	ldb := util.NewLevelNodeDB(util.NewMemoryNodeDB(), s.pndb, false)
-	t := &trieH{id: 0, parent: 0, ldb: ldb, content: map[string][]byte{}}
-	if n := len(s.saved); n > 0 {
-		t.content = cloneMap(s.saved[n-1].content)
+func (s *storeRun) openBlock(version int64, kind string) *trieH {
+	t := &trieH{id: 0, parent: 0, kind: kind, content: map[string][]byte{}}
+	root := s.lastRoot()
+	switch kind {
+	case "mem":
+		t.db = util.NewMemoryNodeDB()
+		root = nil
+	case "pndb":
+		t.db = s.pndb
+	default:
+		t.kind = "level"
+		t.ldb = util.NewLevelNodeDB(util.NewMemoryNodeDB(), s.pndb, false)
+		t.db = t.ldb
+	}
+	if b := s.base(); b >= 0 && kind != "mem" {
+		t.content = cloneMap(s.saved[b].content)
 	}
 	t.openContent = cloneMap(t.content)
-	t.mpt = newMPT(ldb, version, s.lastRoot())
+	t.mpt = newMPT(t.db, version, root)
 	t.mpt.ChangeCollector = &recCC{ChangeCollectorI: t.mpt.ChangeCollector, log: &t.log}
 	return t
 }
 
 func (s *storeRun) openChild(id int, p *trieH) *trieH {
 	ldb := util.NewLevelNodeDB(util.NewMemoryNodeDB(), p.mpt.GetNodeDB(), false)
-	t := &trieH{id: id, parent: p.id, ldb: ldb, content: cloneMap(p.content), openContent: cloneMap(p.content), parentMuts: p.muts}
+	t := &trieH{id: id, parent: p.id, ldb: ldb, db: ldb, kind: "level", content: cloneMap(p.content), openContent: cloneMap(p.content), parentMuts: p.muts}
 	t.mpt = newMPT(ldb, int64(p.mpt.GetVersion()), p.mpt.GetRoot())
 	t.mpt.ChangeCollector = &recCC{ChangeCollectorI: t.mpt.ChangeCollector, log: &t.log}
 	return t
@@ -680,16 +721,95 @@ func (s *storeRun) exec(op string) string {
 		return "ok"
 	case "round":
 		s.version = int64(atoi(f[1]))
+		kind := "level"
+		if len(f) > 2 {
+			kind = f[2]
+		}
+		for i := range s.saved {
+			if s.saved[i].version >= s.version && !s.saved[i].superseded {
+				// a round executed again at this version supersedes the earlier execution (a competing block: the
+				// chain continues from the later one)
+				s.saved[i].superseded = true
+				s.tags["round-reexecuted-at-same-version"] = true
+			}
+		}
 		s.tries = map[int]*trieH{}
-		t := s.openBlock(s.version)
+		t := s.openBlock(s.version, kind)
 		s.tries[0] = t
 		s.roundOps = []string{op}
+		s.tags["parent:"+t.kind] = true
 		if !s.sub {
-			_, keys, _, _ := walkRoot(s.dir, s.version, s.lastRoot())
-			t.startKeys = keys
+			if t.kind == "mem" {
+				t.startKeys = map[string]bool{}
+			} else {
+				_, keys, _, _ := walkRoot(s.dir, s.version, s.lastRoot())
+				t.startKeys = keys
+			}
 			t.snap = s.observe(t)
 		}
+		if kind == "pndb" {
+			// a trie working directly on the persistent store deletes replaced nodes there at once: every earlier
+			// saved round (also the one it continues from) is abandoned
+			for i := range s.saved {
+				s.saved[i].superseded = true
+			}
+		}
 		return "ok " + rootStr(t.mpt.GetRoot())
+
+	case "ver":
+		t := trie(f[1])
+		if t == nil || t.id != 0 {
+			return "bad-op"
+		}
+		s.roundOps = append(s.roundOps, op)
+		s.version = int64(atoi(f[2]))
+		t.mpt.SetVersion(util.Sequence(s.version))
+		s.tags["version-bump"] = true
+		if !s.sub {
+			s.frame(map[int]bool{0: true}, -1)
+		}
+		return "ok"
+
+	case "syncfrom":
+		t := s.tries[0]
+		if t == nil {
+			return "bad-op"
+		}
+		s.roundOps = append(s.roundOps, op)
+		w := int64(atoi(f[1]))
+		donorDB := util.NewMemoryNodeDB()
+		donor := newMPT(donorDB, w, nil)
+		content := map[string][]byte{}
+		if len(f) > 2 {
+			for _, kv := range strings.Split(f[2], ",") {
+				i := strings.IndexByte(kv, '=')
+				k, v := pathOf(kv[:i]), unhx(kv[i+1:])
+				if _, err := donor.Insert([]byte(k), mkVal(append([]byte(nil), v...))); err != nil {
+					panic("donor insert failed: " + err.Error())
+				}
+				content[k] = v
+			}
+		}
+		out := guard(func() string {
+			if err := t.mpt.MergeDB(donorDB, donor.GetRoot(), nil); err != nil {
+				return errKind(err)
+			}
+			return "ok " + rootStr(t.mpt.GetRoot())
+		})
+		if !strings.HasPrefix(out, "ok") {
+			s.fail("C04", "MergeDB from a donor store failed: %s", out)
+		}
+		t.content = content
+		t.muts++
+		s.tags["syncfrom"] = true
+		if w != s.version {
+			s.tags["syncfrom-other-origin"] = true
+		}
+		if !s.sub {
+			s.checkView(t, "after MergeDB")
+			s.frame(map[int]bool{0: true}, 0)
+		}
+		return out
 
 	case "child":
 		p := trie(f[2])
@@ -979,12 +1099,12 @@ func (s *storeRun) exec(op string) string {
 		sr := s.saved[i]
 		ps, _, missing, err := walkRoot(s.dir, sr.version, sr.root)
 		if missing || err != nil {
-			if sr.version >= s.pruned {
+			if sr.version >= s.pruned && !sr.superseded {
 				s.fail("C04", "retained root #%d (version %d) is not readable: missing=%v err=%v", i, sr.version, missing, err)
 			}
 			return "missing"
 		}
-		if sr.version >= s.pruned {
+		if sr.version >= s.pruned && !sr.superseded {
 			if got, want := fmtPairs(ps), fmtPairs(sortedPairs(sr.content)); got != want {
 				s.fail("C04", "retained root #%d (version %d) reads %q, want %q", i, sr.version, got, want)
 			}
